@@ -55,7 +55,9 @@ def strategy(tier):
     dim = st.integers(1, 7 if big else 5)
     seed16 = st.integers(0, 2 ** 16 - 1)
     ref = st.integers(0, 15)
-    vk = st.sampled_from(["r", "r", "r", "c", "c", "z", "q", "i", "cr", "zc"])
+    # "w": a non-zero complex vector whose UNconjugated self-product sum(x_i^2) is exactly zero (pairs (a, i a):
+    # whirling / circularly polarised shapes) -- its norm is not zero
+    vk = st.sampled_from(["r", "r", "r", "c", "c", "z", "q", "i", "cr", "zc", "w"])
     sl_b = st.one_of(st.none(), st.integers(-8, 8))
     idx = st.one_of(
         st.fixed_dictionaries({"t": st.just("int"), "i": st.integers(-8, 7), "np": st.booleans()}),
@@ -131,6 +133,16 @@ def _vec(rng, kind, n, lead=()):
         return np.zeros(shape, dtype=complex)
     if kind == "q":
         return rng.integers(-2, 3, shape).astype(float)
+    if kind == "w":
+        a = rng.integers(1, 4, shape).astype(float)          # small integers: a^2 + (i a)^2 == 0 without rounding
+        x = a.astype(complex)
+        half = n // 2
+        x[..., half:2 * half] = 1j * x[..., :half]
+        if n % 2:
+            x[..., -1] = 0.0
+        if n == 1:
+            x[..., 0] = 1.0 + 0j
+        return x
     re = rng.standard_normal(shape)
     if kind == "r":
         return re
@@ -459,7 +471,7 @@ class _Run:
             us, vs = [u * vsc for u in us], [v * vsc for v in vs]
             self.labels.add(f"vscale:{vsc:g}")
         ks = set(kinds_u) | set(kv)
-        if ks & {"r", "q", "z"} and ks & {"c", "i", "cr", "zc"}:
+        if ks & {"r", "q", "z"} and ks & {"c", "i", "cr", "zc", "w"}:
             self.mixed()
         return us, vs
 
